@@ -15,6 +15,10 @@ CHECKS = {
          "bounded-exhaustive enumeration of atom sequences and edit balls on the real lexers with tiling/aliasing/re-lex oracles after every Next",
          "For every enumerated input and every token position: the token is input[offset-len:offset] by pointer identity and equals a pristine copy modulo the two documented rewrites; tokens strictly ordered, non-overlapping, non-empty; css/js tokens tile the consumed bytes; html/xml gaps are whitespace before a tag closer; Text/AttrKey/AttrVal lie inside the token; append(token) cannot write into the input; each css/js token re-lexes to itself; the set of bytes altered in place is exactly the documented one. Exhaustive within the bounds.",
          "Bounds per alphabet in evidence (css 4 atoms full alphabet, html/js 3-4, xml 4; one more in thorough); JS restricted to valid UTF-8 as the property says; template middle/tail re-lexed after the prefix `${."),
+ "C03": ("exploration",
+         "exhaustive generation of derivation trees of an ES2022 generator grammar up to a size bound, each rendered to source in several legal spellings together with its expected AST.String() known by construction; exhaustive single-bracket mutations, forbidden operator sequences and lexical redeclarations as negatives",
+         "All expression trees with one operator over 14 leaf kinds, with two and with three operators over ~70 operator forms (every binary/assignment/prefix/update operator, conditional, comma, member, optional chain, call, new, tagged template, arrow, yield) in every shape are spelled with minimal parentheses from an independent ECMA-262 precedence table, fully parenthesised, with one redundant pair at each node and with whitespace/comments, and must parse to exactly the expected String(); likewise every statement kind x sub-statements x expressions to nesting depth 2, ~300 declaration/class/parameter/import/export forms, all ordered pairs of 48 statements x 5 separators and 45 ASI situations x 5 line-terminator kinds, under all four Options (WhileToFor: the equivalent for-loop). Negatives that must return an error: every single bracket deletion/insertion of the one-operator programs, sampled statement programs and declaration forms; every forbidden operator sequence alone and at every operand position; every ordered pair of let/const/class declarations of one name in 12 scope kinds with nothing or any of 16 statements between them.",
+         "Trusted base: the renderer (transcription of the String() layout of js/ast.go, precedence table). Representation conventions encoded in the expectation and listed in DESIGN.md: loop bodies are blocks, 'new a()' drops the empty argument list, an empty statement directly after another statement on the same line and trailing elisions of binding patterns are not represented."),
  "C05": ("exploration",
          "bounded-exhaustive enumeration of accepted programs (atom sequences, edit balls, seed pairs, a literal/indentation family) x Options through the real parse -> print -> parse -> print loop with tree comparison",
          "For every input js.Parse accepts among: all valid-UTF-8 strings up to 4 (5) atoms over the JS core alphabet and 2 (3) over the full one, all single-edit neighbours of ~150 seed programs, ordered pairs of seeds joined by newline/semicolon/space, and a family of 13 literals with line breaks or escapes x 11 syntactic positions x 8 block wrappers x nesting depth 0..3 (indentation 0..12) - under all four Options - the printed text must parse, print identically again, yield the same String() tree after removing GroupExpr nodes from both trees, and contain every string/template/regexp/numeric literal, kept comment and directive byte for byte.",
